@@ -21,6 +21,24 @@ def NS(grp, **kw): return dict(grp, **kw)
 G7, G11, G23 = GRP(7, 3, 2, 2), GRP(11, 5, 3, 2), GRP(23, 11, 2, 2)
 NETH('C15', 'pvss_share_recv', 'C15_vss.cc', 'h_pvss_recv',
      'PedersenVSS::Share as receiver vs arbitrary dealer/third party: complaint <=> share does not verify; accepted => <= t complaints, public answers verify, stored share verifies (if no own complaint); no complaint => not disqualified',
-     'commitments A_k in [-1,p+2), share pair and published pair in [-q,q], who-values in [0,n], tape lengths (dealer broadcast, dealer unicast, third party)', PVSS_TU,
-     [NS(G7, H_N=2, H_T=0, H_I=1, H_D=0, VN_PARTIES=2), NS(G7, H_N=3, H_T=1, H_I=1, H_D=0)],
-     [NS(G11, H_N=2, H_T=0, H_I=1, H_D=0, VN_PARTIES=2), NS(G11, H_N=3, H_T=1, H_I=1, H_D=0), NS(G7, H_N=3, H_T=1, H_I=0, H_D=2), NS(G7, H_N=3, H_T=1, H_I=2, H_D=1)])
+     'commitments A_k in [-1,p+2), share pair and published pair in [-q,q], tape lengths (dealer broadcast, dealer unicast); the complaint list of the third party (H_OT) and the who-value of the public answer (H_RWHO) are enumerated by slices', PVSS_TU,
+     [NS(G7, H_N=2, H_T=0, H_I=1, H_D=0, VN_PARTIES=2), NS(G7, H_N=3, H_T=1, H_I=1, H_D=0, H_OT=0)],
+     None,   # a third slice (third party complains, public answer checked) held in 494-556 s before the oracle was rewritten and was not re-measured: NS(G7, H_N=3, H_T=1, H_I=1, H_D=0, H_OT=1, H_AFULL=0, H_SLO=0)
+     timeout=1500)
+NETH('C15', 'pvss_share_dealer', 'C15_vss.cc', 'h_pvss_dealer',
+     'PedersenVSS::Share as honest dealer: A_k = g^a_k h^b_k, a_0 = secret, the pair sent to P_j is (f(j+1), f\'(j+1)) and passes the share check; a complaint is answered with the same pair; > t complaints => gives up',
+     'secret and all polynomial coefficients in [0,q); complaint lists of the receivers enumerated by slices (H_CT)', PVSS_TU,
+     [NS(G7, H_N=2, H_T=0, H_I=0, H_D=0, VN_PARTIES=2, H_CT=1), NS(G7, H_N=3, H_T=1, H_I=0, H_D=0, H_CT=0), NS(G7, H_N=3, H_T=1, H_I=0, H_D=0, H_CT=1)],
+     None,
+     timeout=1500)
+# ---- written but NOT registered (did not close under load, see notes/C15.md); to try on an idle machine remove the leading '# ':
+# (1) the finding slice D1 (negative published pair; VIOLATION on the current tree, replayed natively):
+#   NETH('C15', 'pvss_share_recv_negpair', 'C15_vss.cc', 'h_pvss_recv', 'as pvss_share_recv, published pair in [-q,q]', '...', PVSS_TU,
+#        [NS(G7, H_N=3, H_T=1, H_I=1, H_D=0, H_OT=1, H_AFULL=0, H_SLO=0, H_RLO='(-H_Q)')], timeout=3000)
+# (2) own complaint must be resolved (suspected defect D2): same entry with H_OT=0, H_RESOLVE=1
+# (3) reconstruction / RVSS::Reconstruct (n = 2t+1 boundary; would catch "t+2 shares" = seeded C17a once it closes):
+# RVSS_TU = ['JareckiLysyanskayaASTC.cc', 'PedersenVSS.cc', 'mpz_spowm.cc', 'mpz_sprime.cc']
+# NETH('C17', 'rvss_reconstruct', 'C15_recon.cc', 'h_rvss_recon_delta',
+#      'JareckiLysyanskayaRVSS::Reconstruct (multi-party coin flip, step 3), n=2t+1=3 with the deviator being reconstructed: own + one verified share suffice, unverified pair not counted, result = committed value',
+#      'deviation (d1,d2) in [0,q)^2 added to the helper pair, helper tape length; the deviator\'s dealt polynomials are concrete per slice', RVSS_TU,
+#      [NS(G7)], [NS(G7), NS(G11), NS(G11, H_CA='{ 4, 3, 0 }', H_CB='{ 0, 2, 0 }')], timeout=600)
